@@ -1,11 +1,12 @@
-SPECIFICATION MCSpec
+SPECIFICATION MCSpecZero
 CONSTANTS
-  MaxFiles = 3
-  MaxLen = 2
+  MaxFiles = 2
+  MaxLen = 3
   MaxPL = 3
   BSS = {2, 3}
 INVARIANT ReadBackInv
 INVARIANT DiskInv
 INVARIANT AllWrittenIsFinal
 INVARIANT VerifyInv
+INVARIANT ThmRLEz
 CHECK_DEADLOCK FALSE
